@@ -156,6 +156,14 @@ func addBadgerModel(P *Program) {
 		o[syncIdx] = true // badger v2's default
 		return o
 	}
+	h["("+badgerPkg+".Options).WithLogger"] = func(i *interpreter, fr *frame, fn *ssa.Function, args []value) value {
+		return args[0]
+	}
+	h["("+badgerPkg+".Options).WithSyncWrites"] = func(i *interpreter, fr *frame, fn *ssa.Function, args []value) value {
+		o := append(structure(nil), args[0].(structure)...)
+		o[syncIdx] = args[1]
+		return o
+	}
 	h[badgerPkg+".Open"] = func(i *interpreter, fr *frame, fn *ssa.Function, args []value) value {
 		o := args[0].(structure)
 		dir := goString(o[dirIdx], "badger dir")
